@@ -1,4 +1,80 @@
-import ErgoModel.Exec
+/-
+  C11 — plan creates the whole described graph or nothing.
+-/
+import ErgoProofs.Lemmas.ReachInv
+import ErgoProofs.Lemmas.Prune
+import ErgoProofs.Lemmas.PlanShape
+import ErgoProofs.Lemmas.StorageThm
 namespace Ergo
-theorem C11_placeholder : True := trivial
+
+/-- a payload is accepted exactly when: non-blank epic title; body not blank if present; at least one task; every task has a
+    non-blank title and a body that is not blank if present; titles pairwise distinct; every `after` entry is non-blank,
+    is not the task's own title and names a task of the plan; the `after` relation is acyclic -/
+theorem C11_valid_iff (p : PlanInput) :
+    planValid p = true ↔
+      optNonBlank p.title = true ∧ optBlank p.body = false ∧ p.tasks ≠ [] ∧
+      (∀ t ∈ p.tasks, optNonBlank t.title = true ∧ optBlank t.body = false) ∧
+      (planTitles p).Nodup ∧
+      (∀ t ∈ p.tasks, ∀ a ∈ t.after, Text.isBlank a = false ∧ some a ≠ t.title ∧ a ∈ planTitles p) ∧
+      Acyclic (planEdges p) :=
+  planValid_iff p reachable_iff
+
+/-- an invalid payload (or one that does not parse) is rejected before any lock is taken: nothing is written -/
+theorem C11_invalid_nothing (log : List Event) (env : Env) (p : Option PlanInput)
+    (h : p = none ∨ ∃ q, p = some q ∧ planValid q = false) :
+    (runCmd log env (.plan p)).log = log ∧ (runCmd log env (.plan p)).write = none ∧ (runCmd log env (.plan p)).err ≠ none := by
+  rcases h with rfl | ⟨q, rfl, hq⟩
+  · simp [runCmd, sectionOf]
+  · simp [runCmd, sectionOf, hq]
+
+/-- a successful plan only extends the log (nothing that existed before is altered) and the result satisfies every invariant:
+    one live epic, todo/unclaimed tasks inside it, edges between live tasks, acyclic -/
+theorem C11_effect (log : List Event) (h : ReachOK log) (g : Graph) (hg : replayRaw log = .ok g) (env : Env) (henv : EnvOK g env)
+    (p : PlanInput) (w : Write) (hw : (runCmd log env (.plan (some p))).write = some w) :
+    (∃ new, w = .replace (log ++ new) ∧ (runCmd log env (.plan (some p))).log = log ++ new) ∧
+    ∃ g', replay (runCmd log env (.plan (some p))).log = .ok g' ∧ AllInv g' := by
+  refine ⟨?_, reach_replay _ (ReachOK.step env _ h hg henv)⟩
+  unfold runCmd at hw ⊢
+  cases hs : sectionOf env.agent (.plan (some p)) with
+  | error e => simp [hs] at hw
+  | ok sec =>
+    have hsec : sec = .plan p := by
+      simp only [sectionOf] at hs
+      split at hs
+      · injection hs with hs; exact hs.symm
+      · cases hs
+    subst hsec
+    cases hr : runSec log env (.plan p) with
+    | error e => simp [hs, hr] at hw
+    | ok wo =>
+      obtain ⟨w', out⟩ := wo
+      simp only [hs, hr] at hw ⊢
+      injection hw with hw
+      subst hw
+      -- the plan section's write is `.replace (log ++ new)`
+      unfold runSec at hr
+      cases hrep : replay log with
+      | error e => simp [hrep] at hr
+      | ok g0 =>
+        simp only [hrep] at hr
+        cases hp : secPlan log g0 p env with
+        | error e => simp [hp, Except.map] at hr
+        | ok wo2 =>
+          obtain ⟨w2, o2⟩ := wo2
+          simp only [hp, Except.map] at hr
+          injection hr with hr
+          injection hr with hr1 _
+          subst hr1
+          obtain ⟨new, hnew⟩ := secPlan_shape log g0 p env w2 o2 hp
+          subst hnew
+          exact ⟨new, rfl, rfl⟩
+
+/-- the torn tail of a crashed writer is dropped by plan's rewrite and nothing else is lost (the rewrite re-encodes
+    exactly what `readEvents` returns) -/
+theorem C11_torn_tail_dropped {classify : Storage.Bytes → Storage.LineClass} {limit : Nat} (f frag : Storage.Bytes)
+    (hcl : Storage.Closed f) (hnl : Storage.NL ∉ frag) (hne : frag ≠ []) (hbad : classify (Storage.dropCR frag) = .bad)
+    (hlen : frag.length < limit) :
+    Storage.readEvents classify limit (f ++ frag) = Storage.readEvents classify limit f :=
+  Storage.readEvents_fragment f frag hcl hnl hne hbad hlen
+
 end Ergo
